@@ -8,7 +8,9 @@ import OW.Sim.Writer
   → `ok {name created ds(outputs) ds(inputs) ds(states) extra}×M | ref=… late=…`   (ds = 0 | 1 rank dims… values…)
 The result printed is `owsim` (the implementation-shaped semantics under the earliest-writer schedule) with the kernel
 models of `Kernels.find`; after ` | ` the driver reports whether the specification `refSem` and the latest-writer
-schedule give the same result on this line. A graph that is not `ValidGraph` is refused (`invalid-graph`).
+schedule give the same result on this line. A graph that is not `ValidGraph` is refused (`invalid-graph`): batches,
+link order and ranges (incl. `srcVar` below the number of outputs of the source model, see `probeNOutputs`), pairwise
+different model names, dataset shapes.
 
 `SIMTRACE id kind G n {ev a b}×n` → `ok accept | ok reject <i> | ok incomplete`: the hook trace of a real ow-sim
 execution replayed through `OW.Sim.Writer.step`.
@@ -50,7 +52,7 @@ def popModel (T : Nat) (ts : Toks) : Option (ModelData Float × Toks) := do
   let (batches, ts) ← popNs ts
   let n := totalOf batches
   let (nodes, ts) ← popMany (popNode nP nS nI T (hi == 1)) n ts
-  pure ({ name := name, nInputs := nI, batches := batches
+  pure ({ name := name, nInputs := nI, nOutputs := 0, batches := batches
           params := nodes.map (·.1), states := nodes.map (·.2.1)
           inputs := if hi == 1 then some (nodes.map (·.2.2)) else none }, ts)
 
@@ -77,6 +79,19 @@ def parse (ts : Toks) : Option (Graph Float) := do
     | none => "NoSuchModel"
   pure { T := T, models := models, links := links
          sel := { outputsFor := nm s0, noOutputsFor := nm s1, inputsFor := nm s2, noInputsFor := nm s3 } }
+
+/-- The protocol line does not carry the number of output variables of a model type (ow-sim takes it from the
+catalogue's `Description().Outputs`). The driver takes `ModelData.nOutputs` from the kernel model itself: the number of
+output series it returns for the first node of the model that runs without error on its own parameters, states and
+stored inputs (the K correspondence ties the kernel models' output lists to the real models'; the count does not depend
+on the input values). A model without nodes cannot be the source of a valid link, its count stays 0. -/
+def probeNOutputs (g : Graph Float) (md : ModelData Float) : Nat :=
+  ((List.range (totalOf md.batches)).findSome? fun r =>
+    let res := kernelRun md.name (md.params.getD r []) (baseInputs g md r) (md.states.getD r [])
+    if res.err.isNone then some res.outputs.length else none).getD 0
+
+def withNOutputs (g : Graph Float) : Graph Float :=
+  { g with models := g.models.map fun md => { md with nOutputs := probeNOutputs g md } }
 
 def fmtDS (dims : List Nat) (vals : List Float) : String :=
   joinToks ("1" :: toString dims.length :: dims.map toString ++ vals.map fmtF)
@@ -118,7 +133,7 @@ def fmtResult (g : Graph Float) (res : Result Float) : String :=
   | none => joinToks ("ok" :: parts.map fun p => match p with | .ok s => s | .error e => e)
 
 def handle (args : Toks) : String :=
-  match parse args with
+  match (parse args).map withNOutputs with
   | none => "bad-op"
   | some g =>
     if !decide (ValidGraph g) then "invalid-graph"
